@@ -117,10 +117,11 @@ Definition common_indices (keys : list (list Z)) (aux : option (list Z)) : list 
   let cv := common_values keys aux in map (index_list cv) keys.
 
 (* ---- Data.__init__ ----------------------------------------------------------------------- *)
-Definition in_range (r : option (Z * Z)) (lo hi x : Z) : bool :=
+(* a range option constrains only when it is GIVEN (inclusive ends); -latrange alone says nothing about longitudes *)
+Definition in_given (r : option (Z * Z)) (x : Z) : bool :=
   match r with
   | Some (a, b) => (a <=? x) && (x <=? b)
-  | None => (lo <=? x) && (x <=? hi)
+  | None => true
   end.
 
 Definition is_nil {A} (l : list A) : bool := match l with [] => true | _ => false end.
@@ -128,8 +129,8 @@ Definition is_none {A} (o : option A) : bool := match o with None => true | Some
 
 (* resolve -latrange/-lonrange/-l/-elevrange/-lx to a list of location ids (data.py:102-152) *)
 Definition latlon_ids (cfg : config) (locs : list loc) : list Z :=
-  map l_id (filter (fun s => in_range (c_lat cfg) (-90000) 90000 (l_lat s)
-                          && in_range (c_lon cfg) (-180000) 180000 (l_lon s)) locs).
+  map l_id (filter (fun s => in_given (c_lat cfg) (l_lat s)
+                          && in_given (c_lon cfg) (l_lon s)) locs).
 Definition elev_ids (lo hi : Z) (locs : list loc) : list Z :=
   map l_id (filter (fun s => (lo <=? l_elev s) && (l_elev s <=? hi)) locs).
 
